@@ -951,6 +951,34 @@ func (c *Ctx) ruleEveryMatchingRecord(id string, authPkg string) {
 					}
 					ia, ok := fa.X.(*ssa.IndexAddr)
 					if !ok {
+						// a local copy of the record (candidate := h.db[idx]), possibly handed to a helper by value
+						var find func(v ssa.Value, d int)
+						find = func(v ssa.Value, d int) {
+							if d > 4 || ok {
+								return
+							}
+							switch x := v.(type) {
+							case *ssa.Alloc:
+								for _, st := range allStoresTo(x) {
+									find(st.Val, d+1)
+								}
+							case *ssa.UnOp:
+								if x.Op == token.MUL {
+									if ia2, isIA := x.X.(*ssa.IndexAddr); isIA {
+										ia, ok = ia2, true
+									} else {
+										find(x.X, d+1)
+									}
+								}
+							case *ssa.Parameter:
+								for _, a := range callerArgs(x) {
+									find(a, d+1)
+								}
+							}
+						}
+						find(fa.X, 0)
+					}
+					if !ok {
 						continue
 					}
 					n++
@@ -958,8 +986,13 @@ func (c *Ctx) ruleEveryMatchingRecord(id string, authPkg string) {
 					idx := deepStrip(ia.Index)
 					phi, isPhi := idx.(*ssa.Phi)
 					fromSearch := func(v ssa.Value) bool {
-						cv, ok := deepStrip(v).(*ssa.Call)
-						return ok && core.CallOf(cv).Is(search)
+						if _, isAdd := conversionsOnly(v).(*ssa.BinOp); isAdd {
+							return false
+						}
+						return depReaches(v, func(x ssa.Value) bool {
+							cv, ok := x.(*ssa.Call)
+							return ok && core.CallOf(cv).Is(search)
+						})
 					}
 					switch {
 					case isPhi:
@@ -1089,7 +1122,55 @@ func (c *Ctx) ruleMountPointNeverEmpty(id string, authPkg string) {
 					}
 					continue
 				}
-				if !nonEmpty(v, b, nil, 0) {
+				// judged per path to the store: φs resolved, infeasible combinations of flags pruned
+				okPaths := true
+				target := b
+				if ps, err := core.EnumPaths(g, core.PathOpts{Stop: func(bb *ssa.BasicBlock) bool { return bb == target }}); err == nil {
+					for _, p := range ps {
+						if len(p.Blocks) == 0 || p.Blocks[len(p.Blocks)-1] != target {
+							continue
+						}
+						pv := conversionsOnly(p.Resolve(conversionsOnly(v)))
+						if k, isK := pv.(*ssa.Const); isK {
+							if k.Value == nil || k.Value.Kind() != constant.String || constant.StringVal(k.Value) == "" {
+								okPaths = false
+							}
+							continue
+						}
+						tested := false
+						pt := core.Term(pv)
+						for _, d := range decisions(p) {
+							bo, isB := d.Cond.(*ssa.BinOp)
+							if !isB {
+								continue
+							}
+							for _, pair := range [][2]ssa.Value{{bo.X, bo.Y}, {bo.Y, bo.X}} {
+								if k, isK := pair[1].(*ssa.Const); isK && k.Value != nil && k.Value.Kind() == constant.String && constant.StringVal(k.Value) == "" && core.Term(conversionsOnly(p.Resolve(pair[0]))) == pt {
+									if (bo.Op == token.NEQ) == d.Val {
+										tested = true
+									}
+								}
+								if lc, isC := pair[0].(*ssa.Call); isC && core.CallOf(lc).Builtin() == "len" && core.Term(conversionsOnly(p.Resolve(lc.Call.Args[0]))) == pt {
+									if kv, isK := constInt(pair[1]); isK && kv == 0 {
+										op := bo.Op
+										if pair[0] == bo.Y {
+											op = map[token.Token]token.Token{token.LSS: token.GTR, token.GTR: token.LSS, token.LEQ: token.GEQ, token.GEQ: token.LEQ, token.EQL: token.EQL, token.NEQ: token.NEQ}[op]
+										}
+										if holds(op, 0, 0) != d.Val {
+											tested = true
+										}
+									}
+								}
+							}
+						}
+						if !tested {
+							okPaths = false
+						}
+					}
+				} else {
+					okPaths = nonEmpty(v, b, nil, 0)
+				}
+				if !okPaths && !nonEmpty(v, b, nil, 0) {
 					bad = "the mount point stored at " + c.whereI(st) + " (" + short(core.Term(v), 50) + ") is not known to be non-empty: a line 'user:hash:' puts the user's sessions in the mount point \"\""
 				}
 			}
